@@ -6,6 +6,7 @@ from . import _runloop_common as common
 from .. import driver
 from ..codec import enc, enc_list, dec_list
 from ..gen import doctests as gd
+from ..gen import scenarios as S
 
 LEAN_TARGETS = ['XdocModel.Proofs.C04', 'XdocModel.Pins.Defaults', 'XdocModel.Pins.Directive']
 MANIFEST = {
@@ -100,8 +101,108 @@ def module_level(ctx, corr):
     common.module_level_cases(ctx, corr, 'module-level', MODULE_CASES)
 
 
+# ------------------------------------------------------------------ the environment changes between runs of ONE DocTest object
+TOGGLE = 'env:XDOCVERIF_TOGGLE'
+TOGGLE_EVENTS = [('plain', None), ('plain', None)] + [(w, d) for w in ('block', 'inline') for d in (
+    '+REQUIRES(%s)' % TOGGLE, '-REQUIRES(%s)' % TOGGLE, '+SKIP', '-SKIP', '+REQUIRES(%s, %s)' % (gd.MET, TOGGLE),
+    '+REQUIRES(%s)' % gd.UNMET_A, '-REQUIRES(%s)' % gd.UNMET_A)]
+
+
+def _toggle_reference(groups, toggle_set):
+    """which statements run (three-line specification of C04) when env:XDOCVERIF_TOGGLE is / is not set"""
+    met = (gd.MET, TOGGLE) if toggle_set else (gd.MET,)
+    st = gd.State()
+    T = []
+    for g in groups:
+        if g.kind == 'block':
+            for d in g.block:
+                st.apply(d, met=met)
+            continue
+        loc = st.copy()
+        for d in g.inline:
+            loc.apply(d, met=met)
+        if loc.ok and g.kind != 'comment':
+            T.append(g.k)
+    return T
+
+
+def _toggle_run(text, history):
+    """one parse, then one run of the same object per entry of `history` (is the variable set?); returns the TRACE of every run"""
+    import os
+    import warnings as _w
+    from xdoctest import core
+    from ..corr import runloop
+    with _w.catch_warnings():
+        _w.simplefilter('ignore')
+        exs = list(core.parse_docstr_examples(text, callname='t', style='freeform', fpath='<verif>', lineno=1))
+    if not exs:
+        return None
+    ex = exs[0]
+    ex.mode = 'native'
+    out = []
+    old = os.environ.pop('XDOCVERIF_TOGGLE', None)
+    try:
+        for setting in history:
+            if setting:
+                os.environ['XDOCVERIF_TOGGLE'] = '1'
+            else:
+                os.environ.pop('XDOCVERIF_TOGGLE', None)
+            ns, T = gd.make_namespace(runloop.NS())
+            ex.global_namespace = ns
+            try:
+                with _w.catch_warnings():
+                    _w.simplefilter('ignore')
+                    ex.run(on_error='return', verbose=0)
+                out.append(list(T))
+            except Exception as e:
+                out.append('raise:' + type(e).__name__)
+    finally:
+        os.environ.pop('XDOCVERIF_TOGGLE', None)
+        if old is not None:
+            os.environ['XDOCVERIF_TOGGLE'] = old
+    return out
+
+
+def _toggle_case(rng):
+    events = [rng.choice(TOGGLE_EVENTS) for _ in range(rng.randint(1, 6))]
+    sc = S.build_c04(events, [rng.choice(S.SHAPES) for _ in range(5)], rng=rng)
+    history = [rng.random() < 0.5 for _ in range(rng.randint(2, 4))]
+    if len(set(history)) == 1:
+        history.append(not history[0])
+    return sc, history
+
+
+def toggle_suite(ctx, corr):
+    """REQUIRES(env:...) whose truth changes between runs of the SAME DocTest object: each run must execute exactly the
+    statements that no SKIP / unmet REQUIRES covers in the environment of THAT run (nothing about a condition may be
+    remembered on the parsed object)"""
+    rng = ctx.sub_rng('toggle')
+    for _ in range(150 if ctx.quick else 3000):
+        sc, history = _toggle_case(rng)
+        exp = [_toggle_reference(sc['groups'], h) for h in history]
+        got = _toggle_run(sc['text'], history)
+        corr.count('toggle')
+        corr.nontriv(('toggle', sc['text'], tuple(history)))
+        if got is None:
+            corr.unknown += 1
+            continue
+        corr.tag('toggle:' + ('same' if got == exp else 'differs'))
+        if got != exp:
+            corr.expect_fail('toggle', {'toggle': True, 'text': sc['text'], 'history': history}, exp, got,
+                             'TRACE per run (XDOCVERIF_TOGGLE set? %r) of one DocTest object differs from the statements that no SKIP / unmet REQUIRES covers in that run' % (history,))
+
+
+def _toggle_hits(corr):
+    hits = []
+    for e in corr.expect_failures:
+        if e['suite'] == 'toggle' and len(hits) < 2:
+            hits.append({'kind': 'expectation', 'suite': 'toggle', 'input': e['input'], 'expected': e['expected'], 'impl': e['impl'], 'why': e['why']})
+    return hits
+
+
 def correspondence(ctx, corr):
     module_level(ctx, corr)
+    toggle_suite(ctx, corr)
     import os
     os.environ['XDOCVERIF_MET'] = '1'
     from xdoctest import directive
@@ -240,6 +341,12 @@ def replay_finding(ctx, finding):
 
 
 def replay(ctx, failing):
+    if failing.get('input', {}).get('toggle'):
+        i = failing['input']
+        got = _toggle_run(i['text'], i['history'])
+        print(i['text'])
+        print('XDOCVERIF_TOGGLE set per run: %r\nTRACE per run : %r\nexpected      : %r' % (i['history'], got, failing['expected']))
+        return got != failing['expected']
     if failing.get('kind') == 'law':
         print('law %s on input %r: observed %r' % (failing.get('law'), failing['input'], failing.get('observed')))
         return True
